@@ -28,7 +28,7 @@ from yaql.language import exceptions, expressions
 from yaql.language import factory as yfactory
 
 ID = 'C16'
-LEAN_MODULES = ['Yaql.Props.C16', 'Yaql.Props.C16Float', 'Yaql.Props.FloatRound', 'Yaql.Props.C03Lex', 'Yaql.Props.C16Result']
+LEAN_MODULES = ['Yaql.Props.C16', 'Yaql.Props.C16Float', 'Yaql.Props.FloatRound', 'Yaql.Props.C03Lex', 'Yaql.Props.C16Result', 'Yaql.Props.C16Foreign']
 REQUIRED_THEOREMS = [
     'Yaql.Props.C16.roundtrip_single', 'Yaql.Props.C16.roundtrip_double', 'Yaql.Props.C16.unescaped_self',
     'Yaql.Props.C16.escape_values', 'Yaql.Props.C16.unknown_escape_kept', 'Yaql.Props.C16.verbatim_identity',
@@ -42,6 +42,9 @@ REQUIRED_THEOREMS = [
     'Yaql.Props.C03Lex.nextTok_progress', 'Yaql.Props.C03Lex.lexical_position_inside',
     'Yaql.Props.C03Lex.conversions_total', 'Yaql.Props.C03Lex.lexFrom_step',
     'Yaql.Props.C16Result.literal_result_fixed',
+    'Yaql.Props.C16Foreign.slash_is_no_escape', 'Yaql.Props.C16Foreign.foreign_word_is_keyword',
+    'Yaql.Props.C16Foreign.exponent_is_no_number', 'Yaql.Props.C16Foreign.radix_separator_suffix_are_no_number',
+    'Yaql.Props.C16Foreign.json_slash_escape_kept', 'Yaql.Props.C16Foreign.sign_is_an_operator',
 ]
 TRUSTED = ["CPython's re engine, Unicode tables (\\w, \\d, int() of a digit), codecs 'unicode-escape', "
            "unicodedata name table: parameters / oracles of the model, read from the "
@@ -1265,7 +1268,11 @@ LEVEL_TEXT = ('Lean 4 theorems over an executable model of yaql/language/lexer.p
               'the code by running the compiled model and the real lexer+parser on every BMP code point, sampled astral ones, '
               'all escape shapes, biased strings, big integers, decimals, Unicode words, token soups under default/legacy/custom '
               'operator tables.')
-LEVEL_NOTE = ('round 5: the literal is also compared as the RESULT a host receives (alone and nested in lists / dictionaries incl. keys; '
+LEVEL_NOTE = ('round 6: texts that another literal syntax (JSON, Python) reads differently - constants of other languages, exponents, '
+              'digit separators, radix prefixes, suffixes, foreign escapes, the spellings json.dumps / repr produce for generated values - go as WHOLE '
+              'expressions through every public entry point, which must agree (check_routes); model side C16Foreign (\\/ is no escape, foreign '
+              'constants are keywords of their own text, 1e5 / 0x10 / 1_000 / 1L are lexical errors; kernel-checked instances). '
+              'round 5: the literal is also compared as the RESULT a host receives (alone and nested in lists / dictionaries incl. keys; '
               'Statement.evaluate, copy, yaql.eval, YaqlInterface), model side C16Result.literal_result_fixed (output conversion is the '
               'identity on literal values at every depth); strings with surrogate code points (lone, paired, runs) are real-code only. '
               'partial where the runtime decides: Unicode classes, the \\N{} name table, int()/float() text conversion and the re '
